@@ -67,7 +67,9 @@ VALUE_CLASSES = {
                             datetime.datetime(2020, 1, 2, 3, 4, 5, tzinfo=TZ(TD(hours=-12))),
                             datetime.datetime(2020, 1, 2, 3, 4, 5, tzinfo=TZ(TD(minutes=-30), 'HALF'))],
     'datetime_tzname_none': [datetime.datetime(2020, 1, 2, 3, 4, 5, tzinfo=NoNameTZ())],
-    'subsecond': [datetime.datetime(2020, 1, 2, 3, 4, 5, 123456), datetime.time(1, 2, 3, 500000)],
+    'subsecond': [datetime.datetime(2020, 1, 2, 3, 4, 5, us) for us in (1, 42, 99, 100, 999, 1000, 50000, 123456, 999999)] +
+                 [datetime.time(1, 2, 3, us) for us in (7, 80, 900, 500000, 999999)] +
+                 [datetime.datetime(2020, 1, 2, 3, 4, 5, 10, tzinfo=TZ(TD(hours=-3)))],
     'duration': [TD(days=1, seconds=5), TD(seconds=-90), TD(hours=1.5), isodate.Duration(years=1, months=2),
                  isodate.Duration(months=1, days=3)],
     'nested': [[D('1.1'), {'d': datetime.date(2020, 1, 1), 'l': [datetime.time(1, 2, 3)]}],
@@ -76,8 +78,8 @@ VALUE_CLASSES = {
     'null': [None],
 }
 COMMON = ['decimal', 'bigint', 'float', 'text', 'date', 'time', 'datetime_naive', 'datetime_utc',
-          'datetime_pos_offset', 'datetime_neg_offset', 'duration', 'nested', 'set', 'null']
-RARE = ['datetime_tzname_none', 'subsecond']
+          'datetime_pos_offset', 'datetime_neg_offset', 'duration', 'nested', 'set', 'null', 'subsecond']
+RARE = ['datetime_tzname_none']
 
 
 def gen_cases(tier, seed):
